@@ -109,7 +109,10 @@ class _Quadrature(torch.autograd.Function):
             params = all_params[:nparams]
             objparams = all_params[nparams:]
 
-            # convert to tensor
+            # convert to tensor (remember which limits were given as tensors:
+            # only those can receive a gradient)
+            xl_is_tensor = isinstance(xl, torch.Tensor)
+            xu_is_tensor = isinstance(xu, torch.Tensor)
             xl = torch.as_tensor(xl, dtype=dtype, device=device)
             xu = torch.as_tensor(xu, dtype=dtype, device=device)
 
@@ -140,8 +143,8 @@ class _Quadrature(torch.autograd.Function):
             # save the parameters for backward
             ctx.param_sep = TensorNonTensorSeparator(all_params)
             tensor_params = ctx.param_sep.get_tensor_params()
-            ctx.xltensor = isinstance(xl, torch.Tensor)
-            ctx.xutensor = isinstance(xu, torch.Tensor)
+            ctx.xltensor = xl_is_tensor
+            ctx.xutensor = xu_is_tensor
             xlxu_tensor = ([xl] if ctx.xltensor else []) + \
                           ([xu] if ctx.xutensor else [])
             ctx.xlxu_nontensor = ([xl] if not ctx.xltensor else []) + \
@@ -155,7 +158,8 @@ class _Quadrature(torch.autograd.Function):
     def backward(ctx, grad_ys):
         # retrieve the params
         ntensor_params = ctx.param_sep.ntensors()
-        tensor_params = ctx.saved_tensors[-ntensor_params:]
+        nxlxu = len(ctx.saved_tensors) - ntensor_params
+        tensor_params = ctx.saved_tensors[nxlxu:]
         allparams = ctx.param_sep.reconstruct_params(tensor_params)
         nparams = ctx.nparams
         params = allparams[:nparams]
@@ -164,7 +168,7 @@ class _Quadrature(torch.autograd.Function):
         with fcn.disable_state_change():
 
             # restore xl, and xu
-            xlxu_tensor = ctx.saved_tensors[:-ntensor_params]
+            xlxu_tensor = ctx.saved_tensors[:nxlxu]
             if ctx.xltensor and ctx.xutensor:
                 xl, xu = xlxu_tensor
             elif ctx.xltensor:
